@@ -7,6 +7,7 @@ import AC.OptProof
 import AC.Gen.Ensemble
 import AC.C01Total
 import AC.DictSumTie
+import AC.DecompTie
 /-! # C01 — every search algorithm returns a genuine addition chain ending at the target
 
 Model: `P.DA.execute` (`exec.Execute` over `binary.RightToLeft`, `alg.AsChainAlgorithm`,
@@ -204,5 +205,48 @@ theorem C01_src_dictsum_total (l : List (Nat × Nat)) (hne : l ≠ []) :
     AC.Gen.Program.dictdictsumchain (AC.DictSumTie.G l) =
       some (AC.DictSumTie.I (dictSumChain l)) := by
   rw [AC.DictSumTie.dictsumchain_tie l hne]; rfl
+
+/-- the pair form of a decomposition term -/
+def pairOf (t : P.Bits.Term) : Nat × Nat := (t.d, t.e)
+
+theorem G_pairs (s : List P.Bits.Term) : AC.DictSumTie.G (s.map pairOf) = AC.DecompTie.toGTs s := by
+  simp [AC.DictSumTie.G, AC.DecompTie.toGTs, AC.DictSumTie.toG, AC.DecompTie.toGT, pairOf]
+
+theorem value_pairs (s : List P.Bits.Term) : P.DictSum.value (s.map pairOf) = P.Bits.value s := by
+  simp [P.DictSum.value, P.Bits.value, pairOf, List.map_map, Function.comp_def]
+
+theorem dsvalue_append (a b : List (Nat × Nat)) :
+    P.DictSum.value (a ++ b) = P.DictSum.value a + P.DictSum.value b := by
+  simp [P.DictSum.value]
+
+theorem dsvalue_reverse (a : List (Nat × Nat)) : P.DictSum.value a.reverse = P.DictSum.value a := by
+  induction a with
+  | nil => rfl
+  | cons x r ih =>
+    rw [List.reverse_cons, dsvalue_append, ih]
+    simp [P.DictSum.value]; omega
+
+/-- **source-level, two translated functions composed**: on a sum `S ++ [b]` whose exponents do not
+    increase from the top term down, the chain the translated `dictsumchain` emits ends at exactly the
+    integer the translated `Sum.Int` computes for that sum (or, when nothing is emitted, the top
+    dictionary entry already is that integer) — "the last element is exactly n" given C09's `Sum.Int() = n` -/
+theorem C01_src_dictsum_ends_at_sumInt (S : List P.Bits.Term) (b : P.Bits.Term)
+    (h : P.DictSum.Desc b.e (S.map pairOf).reverse) :
+    ∃ dc : List Nat, ∃ v : Nat,
+      AC.Gen.Program.dictdictsumchain (AC.DecompTie.toGTs (S ++ [b])) = some (AC.DictSumTie.I dc) ∧
+      AC.Gen.Program.dictSumInt (AC.DecompTie.toGTs (S ++ [b])) = some (v : Int) ∧
+      P.DictSum.lastOr dc b.d = v := by
+  obtain ⟨dc, h1, _, h3⟩ := C01_src_dictsum (S.map pairOf) (pairOf b) h
+  refine ⟨dc, P.Bits.value (S ++ [b]), ?_, AC.DecompTie.sumInt_tie _, ?_⟩
+  · rw [← G_pairs]; simpa using h1
+  · have : (pairOf b).1 = b.d := rfl
+    have h2 : (pairOf b).2 = b.e := rfl
+    rw [this, h2, dsvalue_reverse, value_pairs] at h3
+    rw [h3]
+    simp [P.Bits.value]; omega
+
+/-- non-vacuity: the sum 1·2^0 + 3·2^2 + 1·2^5 meets the hypothesis -/
+example : P.DictSum.Desc (⟨1, 5⟩ : P.Bits.Term).e (([⟨1, 0⟩, ⟨3, 2⟩] : List P.Bits.Term).map pairOf).reverse := by
+  simp [P.DictSum.Desc, pairOf]
 
 end AC.Props.C01
